@@ -1110,10 +1110,12 @@ def _leaves(t):
 def tiff_scaling(check, prog):
     """U6: a scaled TIFF export is undone on import.
 
-    display_image maps the stored range [s0, s1] affinely onto [0, 1]; the writer
-    then multiplies by a depth-dependent grey-level count the file does not record.
-    The only inverse that does not need that count maps [min, max] of what was read
-    back onto [s0, s1]."""
+    display_image clips to [s0, s1] and maps that range affinely onto [0, 1]; the
+    writer then multiplies by the grey-level count FS of the sample type (2**bits - 1,
+    or 1 for float).  The inverse is s0 + (s1 - s0) * im / FS.  The rule solves the
+    restore step for FS: it must not be made of the image's own extrema (that is an
+    inverse only when the data reach both ends of the range, i.e. for 'auto') and it
+    cannot be one number for all depths."""
     q = IO + 'load'
     fd = prog.func(q)
     loc = prog.loc(q, fd)
@@ -1127,12 +1129,19 @@ def tiff_scaling(check, prog):
                     x[1][2] == ('const', '_image_scaling'):
                 found.append((x[2], x[3], x[1][3]))
     ok = bool(found)
+    construct = 'no restore step'
     detail = 'no restore step conditional on the stored _image_scaling'
+    from hpstatic.logic import resolve
     for yes, no, meta in found:
+        # (the optional removal of a dummy colour channel comes first; take the
+        # branch without it -- the restore step is the same expression of `im`)
+        nodummy = lambda t: False if (t[0] == 'cmp' and t[1] == 'in' and
+                                       t[2] == ('const', '_dummy_channel')) else None
+        yes, no = resolve(yes, nodummy), resolve(no, nodummy)
         sc = [x for x in subterms(yes) if x[0] == 'call' and x[1] == 'yaml.safe_load'
               and x[2] and x[2][0] == ('idx', meta, ('const', '_image_scaling'))]
         if not sc:
-            ok, detail = False, 'the stored scaling is not read'
+            ok, detail, construct = False, 'the stored scaling is not read', 'scaling not read'
             break
         # strip the attrs store layered on top
         val, base = yes, no
@@ -1142,13 +1151,52 @@ def tiff_scaling(check, prog):
             base = base[1]
         env = {'im': base, 's0': intern(('idx', sc[0], num(0))),
                's1': intern(('idx', sc[0], num(1)))}
-        want = expr_term(prog, '(im - im.min()) * (s1 - s0) / (im.max() - im.min()) + s0', env)
-        if not c0.equal(val, want):
+        # exact inverse: restored = s0 + (s1 - s0) * im / FS.  Solve for FS and look
+        # at what it is made of
+        IM, S0, S1 = sym('im'), sym('smin'), sym('smax')
+
+        def abstract(x):
+            if x == base:
+                return IM
+            if x == env['s0']:
+                return S0
+            if x == env['s1']:
+                return S1
+            if isinstance(x, tuple):
+                return tuple(abstract(y) if isinstance(y, tuple) else y for y in x)
+            return x
+        val = intern(abstract(val))
+        base = IM
+        env = {'s0': S0, 's1': S1}
+        fs = intern(('bin', '/', ('bin', '*', ('bin', '-', env['s1'], env['s0']), base),
+                     ('bin', '-', val, env['s0'])))
+        r = c0.rat(fs)
+        atoms = set()
+        for mono in list(r.num) + list(r.den):
+            for a_, e_ in mono:
+                atoms.add(a_)
+        uses_image = [a_ for a_ in atoms if any(x == base for x in subterms(a_))]
+        constant = r.is_const()
+        key = c0.show(fs)
+        if uses_image:
             ok = False
-            detail = 'restored image = %s' % c0.show(val)[:200]
-    check.require(ok, 'U6-tiff-scaling', 'load (TIFF with metadata)',
-                  'restores smin + (smax - smin) * (im - min) / (max - min): the inverse '
-                  'of the export stretch whatever the bit depth', loc, fail_detail=detail)
+            construct = 'full scale = ' + c0.show(fs).replace(
+                c0.show(base), 'im').replace(' ', '')[:160]
+            detail = 'the grey-level count is taken from the image itself (%s): the ' \
+                'restored image always spans exactly [smin, smax], which is the inverse ' \
+                'of the export only when the stored data reach both ends of the range ' \
+                "(scaling='auto'); with scaling=(0, 100) an image in [20, 30] comes " \
+                'back as [0, 100]' % construct
+        elif constant:
+            ok = False
+            construct = 'full scale = %s' % c0.show(fs)[:40]
+            detail = 'the grey-level count is the constant %s, but the writer stores ' \
+                '2**bits - 1 levels for 8, 16 and 32 bit and 1 for float' % c0.show(fs)[:40]
+    check.require(ok, 'U6-tiff-scaling',
+                  'load (TIFF with metadata)' + ('' if ok else ': ' + construct),
+                  'restores smin + (smax - smin) * im / full_scale with the full scale of '
+                  'the stored sample type: the inverse of the export stretch for every '
+                  'scaling and bit depth', loc, fail_detail=detail)
     # the forward map
     q2 = 'holopy.core.io.vis.display_image'
     if prog.has_func(q2):
